@@ -171,6 +171,9 @@ def Henry.callWithUnits (h : Henry α) (T uK : α) : α := h.callU T uK
 /-- the same named tuple with `Tderiv` and `T0` given as quantities in a temperature unit of scale factor `K` (L1: SI values) -/
 def Henry.inUnit [Mul α] (h : Henry α) (K : α) : Henry α := ⟨h.Hcp, h.Tderiv * K, h.T0.map (· * K)⟩
 
+/-- the deprecated alias `Henry.get_kH_at_T(*args, **kwargs)`: `return self(*args, **kwargs)` -/
+def Henry.getKHAtT (h : Henry α) (T : α) : α := h.call T
+
 /-- `Henry.get_c_at_T_and_P(T, P)`: `P * self(T)` -/
 def Henry.getC (h : Henry α) (T P : α) : α := P * h.call T
 /-- `Henry.get_P_at_T_and_c(T, c)`: `c / self(T)` -/
